@@ -1,6 +1,7 @@
 package c09
 
 import (
+	"errors"
 	"fmt"
 
 	lindbkv "github.com/lindb/lindb/kv"
@@ -56,6 +57,19 @@ func newRunner(c *core.Ctx, dbName string, nShards, maxSeries int) (*runner, err
 
 func (r *runner) close() { r.s.destroy() }
 
+// abort: the case cannot go on because op did not succeed (reopen / crash recovery / a flush step failed or
+// panicked inside lindb). That is a failure of the CASE (area.Run reports it as an oracle failure with the
+// case's ops as the failing input), not of the run — unless the harness's own file handling failed.
+func (r *runner) abort(op, out string) {
+	err := fmt.Errorf("%s: %s", op, out)
+	if strings.HasPrefix(out, harnessPrefix) {
+		err = harnessError{err}
+	}
+	if r.err == nil {
+		r.err = err
+	}
+}
+
 // guard runs f; a panic inside lindb becomes an oracle failure and the output "panic".
 func (r *runner) guard(op string, f func() string) string {
 	var out string
@@ -68,8 +82,33 @@ func (r *runner) guard(op string, f func() string) string {
 		}()
 		out = f()
 	}()
+	out = printable(out)
 	r.c.Op(op, out)
 	return out
+}
+
+// printable keeps an output line a line: a name that lindb hands back with bytes that are no printable
+// ASCII (never on the unchanged tree: the harness's names are letters and digits) is shown escaped.
+func printable(s string) string {
+	clean := true
+	for i := 0; i < len(s); i++ {
+		if s[i] < 0x20 || s[i] > 0x7e {
+			clean = false
+			break
+		}
+	}
+	if clean {
+		return s
+	}
+	var sb strings.Builder
+	for i := 0; i < len(s); i++ {
+		if s[i] < 0x20 || s[i] > 0x7e {
+			fmt.Fprintf(&sb, "\\x%02x", s[i])
+		} else {
+			sb.WriteByte(s[i])
+		}
+	}
+	return sb.String()
 }
 
 func addUnique(xs []int, v int) []int {
@@ -305,7 +344,7 @@ func (r *runner) iflush(shard int) {
 func (r *runner) reopen() {
 	out := r.guard("reopen", func() string { return okOut(r.s.reopen()) })
 	if out != "ok" {
-		r.err = fmt.Errorf("reopen: %s", out)
+		r.abort("reopen", out)
 		return
 	}
 	r.c.Branch("reopen")
@@ -315,7 +354,7 @@ func (r *runner) reopen() {
 func (r *runner) crash() {
 	out := r.guard("crash", func() string { return okOut(r.s.crash()) })
 	if out != "ok" {
-		r.err = fmt.Errorf("crash: %s", out)
+		r.abort("crash", out)
 		return
 	}
 	r.c.Branch("crash")
@@ -332,7 +371,7 @@ func (r *runner) mflushcrash(k int) {
 		return okOut(r.s.crash())
 	})
 	if out != "ok" {
-		r.err = fmt.Errorf("%s: %s", op, out)
+		r.abort(op, out)
 		return
 	}
 	if k >= 1 {
@@ -352,7 +391,7 @@ func (r *runner) iflushcrash(shard, k int) {
 		return okOut(r.s.crash())
 	})
 	if out != "ok" {
-		r.err = fmt.Errorf("%s: %s", op, out)
+		r.abort(op, out)
 		return
 	}
 	r.c.Branch(fmt.Sprintf("crash-in-index-flush-%d", k))
@@ -364,7 +403,7 @@ func (r *runner) iflushimg(shard, j int) {
 	op := fmt.Sprintf("iflushimg %d %d", shard, j)
 	out := r.guard(op, func() string { return okOut(r.s.indexFlushImage(shard, j)) })
 	if out != "ok" {
-		r.err = fmt.Errorf("%s: %s", op, out)
+		r.abort(op, out)
 		return
 	}
 	r.c.Branch(fmt.Sprintf("crash-before-index-commit-%d", j))
@@ -491,47 +530,72 @@ func (area) Run(c *core.Ctx) error {
 		c.Begin(i)
 		db := fmt.Sprintf("c09-%d-%d", c.Seed, i)
 		var err error
-		switch i {
-		case 0:
-			err = witnessKVRace(c, db)
-		case 1:
-			err = witnessSchemaRace(c, db, "tagkey")
-		case 2:
-			err = witnessSchemaRace(c, db, "field")
-		case 3:
-			err = witnessUnsyncedCounter(c, db)
-		case 4:
-			err = witnessSeriesLimit(c, db)
-		case 5:
-			err = witnessSchemaFlushWindow(c, db)
-		case 6:
-			err = witnessLookupVsFlush(c, db)
-		case 7:
-			err = witnessFailedFlush(c, db)
-		case 8:
-			err = witnessSchemaCacheRace(c, db)
-		case 9, 10, 11, 12:
-			err = witnessIndexCommitCrash(c, db, i-9)
-		case 13:
-			err = witnessBucketCacheRace(c, db)
-		case 14:
-			err = witnessSchemaFlushFails(c, db)
-		case 15:
-			err = witnessCompaction(c, db)
-		case 16:
-			err = witnessMemdbRace(c, db)
-		case 17:
-			err = memdbBarrierRegion(c, db)
-		case 18:
-			err = witnessBigBucket(c, db)
-		case 19:
-			err = memdbWorkerRegion(c, db)
-		default:
-			err = randomCase(c, rng, db)
-		}
+		func() {
+			// a panic on this goroutine outside a guarded call (e.g. while the harness digests what lindb
+			// handed back) ends the case, not the run
+			defer func() {
+				if e := recover(); e != nil {
+					err = fmt.Errorf("panic outside a guarded call: %v", e)
+				}
+			}()
+			switch i {
+			case 0:
+				err = witnessKVRace(c, db)
+			case 1:
+				err = witnessSchemaRace(c, db, "tagkey")
+			case 2:
+				err = witnessSchemaRace(c, db, "field")
+			case 3:
+				err = witnessUnsyncedCounter(c, db)
+			case 4:
+				err = witnessSeriesLimit(c, db)
+			case 5:
+				err = witnessSchemaFlushWindow(c, db)
+			case 6:
+				err = witnessLookupVsFlush(c, db)
+			case 7:
+				err = witnessFailedFlush(c, db)
+			case 8:
+				err = witnessSchemaCacheRace(c, db)
+			case 9, 10, 11, 12:
+				err = witnessIndexCommitCrash(c, db, i-9)
+			case 13:
+				err = witnessBucketCacheRace(c, db)
+			case 14:
+				err = witnessSchemaFlushFails(c, db)
+			case 15:
+				err = witnessCompaction(c, db)
+			case 16:
+				err = witnessMemdbRace(c, db)
+			case 17:
+				err = memdbBarrierRegion(c, db)
+			case 18:
+				err = witnessBigBucket(c, db)
+			case 19:
+				err = memdbWorkerRegion(c, db)
+			case 20:
+				err = bufReuseRegion(c, rng, db, true)
+			case 21:
+				err = bufReuseRegion(c, rng, db, false)
+			default:
+				if rng.Intn(12) == 0 {
+					err = bufReuseRegion(c, rng, db, false)
+				} else {
+					err = randomCase(c, rng, db)
+				}
+			}
+		}()
 		if err != nil {
-			return fmt.Errorf("case %d: %w", i, err)
+			var he harnessError
+			if errors.As(err, &he) {
+				return fmt.Errorf("case %d: %w", i, err)
+			}
+			// lindb failed where it never does on the unchanged tree (open / recovery / flush error, panic):
+			// the case is the failing input. (A panic has its own "panic" line already.)
+			c.Fail("case-aborted", fmt.Sprintf("case %d could not go on: %v", i, err))
+			c.Branch("case-aborted")
 		}
+		c.Flush()
 	}
 	return nil
 }
